@@ -43,9 +43,10 @@ type Seed struct {
 	Aux          map[string]string `json:"aux,omitempty"`
 	Size         int               `json:"size"`
 	Quick        bool              `json:"quick"`
-	Tiny         bool              `json:"tiny"`          // eligible for pair mutations
-	IdentityOnly bool              `json:"identity_only"` // run as is (tar variants, regression corpus)
-	CoupledOnly  bool              `json:"coupled_only"`  // a variant of another seed: only the coupled fields (singly and in pairs) are mutated
+	Tiny         bool              `json:"tiny"`                  // eligible for pair mutations
+	IdentityOnly bool              `json:"identity_only"`         // run as is (tar variants, regression corpus)
+	CoupledOnly  bool              `json:"coupled_only"`          // a variant of another seed: only the coupled fields (singly and in pairs) are mutated
+	ValidInput   bool              `json:"valid_input,omitempty"` // a VALID artifact larger than 64 KiB that the unchanged tree handles in milliseconds: an entry that does not return on it is confirmed and reported like for small inputs
 	Origin       string            `json:"origin,omitempty"`
 	Source       string            `json:"source,omitempty"` // functest file the seed is a verbatim copy of
 	data         []byte
@@ -202,6 +203,10 @@ func buildSeeds(dir string) *seedBuilder {
 	b.chainSeeds()
 	b.pgpSeeds()
 	b.tarSeeds()
+	// after tarSeeds: these archives are run as is (the sign entry produces and consumes their upload stream)
+	if os.Getenv("C11_NO_ALIGN") == "" {
+		b.alignSeeds()
+	}
 	b.pkcs7Seeds()
 	b.certSeeds()
 	b.tsSeeds()
